@@ -305,6 +305,54 @@ def read_handle(rng, scratch):
     print('read handle: 400 operations compared with a real file')
 
 
+def shared_handle_interleaving(rng):
+    """Two threads on one handle: T1 seeks, T2 seeks and reads, T1 reads -> T1 must get the bytes that follow
+    T2's read (what a real file does when the calls happen in that order), in every schedule that produces it."""
+    data = bytes(rng.randrange(256) for _ in range(4000))
+    hits = 0
+    for seed in range(200):
+        fs = storage.SimFS()
+        sp = storage.PREFIX + 'sh.bin'
+        fs.add_file(sp, data)
+        order = []
+        got = {}
+
+        def fn():
+            h = fs.open(sp, 'rb')
+
+            def t2():
+                h.seek(2000)
+                order.append('t2.seek')
+                got['t2'] = h.read(5)
+                order.append('t2.read')
+            t = core.SimThread(target=t2)
+            t.start()
+            h.seek(100)
+            order.append('t1.seek')
+            got['t1'] = h.read(5)
+            order.append('t1.read')
+            t.join()
+        r = env.run_sim(fn, fs, core.RandomChooser(random.Random(seed)), step_cap=1000)
+        if r.status != 'ok':
+            raise SystemExit('shared-handle scenario did not run')
+        # replay the recorded order of the four operations on a real file-like model
+        pos = 0
+        expect = {}
+        for op in order:
+            who, what = op.split('.')
+            if what == 'seek':
+                pos = 100 if who == 't1' else 2000
+            else:
+                expect[who] = data[pos:pos + 5]
+                pos += 5
+        check(got == expect, f'shared handle, order {order}: got {got} expected {expect}')
+        if order == ['t1.seek', 't2.seek', 't2.read', 't1.read']:
+            hits += 1
+    check(hits > 0, 'the seek / seek-read / read interleaving was never produced')
+    print(f'shared handle: 200 schedules of two threads on one handle agree with sequential file semantics '
+          f'({hits} of them with a read landing between the other thread\'s seek and read)')
+
+
 def main(argv):
     seed = int(argv[1]) if len(argv) > 1 else 1
     rng = random.Random(seed)
@@ -314,6 +362,7 @@ def main(argv):
         primitives(rng)
         executors(rng)
         read_handle(rng, scratch)
+        shared_handle_interleaving(rng)
         if shutil.which('strace'):
             write_log(scratch)
         else:
